@@ -907,6 +907,10 @@ class Evaluator:
                 return i
         if op in ('+', '-') and isinstance(b, tuple) and b[0] == 'int':
             k = b[1] if op == '+' else -b[1]
+            if isinstance(a, tuple) and len(a) >= 4 and a[0] == 'q' and a[1] in ('begin', 'cbegin') and not a[3] and k >= 0 \
+                    and isinstance(a[2], tuple) and a[2][:2] == ('fld', ('this',)) and a[2][2] in self.cm.field_by_name \
+                    and typeclass(self.cm.field_by_name[a[2][2]].type) == 'vector':
+                return ('vit', a[2], ('int', k))
             if isinstance(a, tuple) and a[0] == 'add':
                 k += a[2]
                 a = a[1]
@@ -915,6 +919,10 @@ class Evaluator:
             return a if k == 0 else ('add', a, k)
         if op == '+' and isinstance(a, tuple) and a[0] == 'int':
             return self.arith('+', b, a)
+        if op == '+' and isinstance(a, tuple) and len(a) >= 3 and a[0] == 'q' and a[1] in ('begin', 'cbegin') and not a[3] \
+                and isinstance(a[2], tuple) and a[2][:2] == ('fld', ('this',)) and a[2][2] in self.cm.field_by_name \
+                and typeclass(self.cm.field_by_name[a[2][2]].type) == 'vector':
+            return ('vit', a[2], b)          # v.begin() + i names v[i]
         return ('bin', op, a, b)
 
     def e_UnaryOperator(self, n, st):
@@ -1987,6 +1995,14 @@ class Evaluator:
         for t, an in zip(ts, arg_nodes or []):
             if typeclass(qt(an)) in ITERATORS:
                 st.ev('use', t, 'arg:' + name, s)
+        if tc == 'list' and name == 'splice' and len(ts) >= 2 and isinstance(ts[1], tuple):
+            ra, rb = root_of(recv)[0], root_of(ts[1])[0]
+            if ra in ('field', 'this') and rb not in ('field', 'this', 'param'):
+                # nodes adopted from a LOCAL list (parked there earlier, or built there): entries enter the container the model tracks
+                # (positions, deadline order, back pointers) from outside it - no semantics for that here.  The other direction alone
+                # (storage detached into a local so that it is torn down after the lock is released) removes them and is modelled.
+                yield st, self.unknown(st, 'list nodes moved between a data member and a local std::list (splice)', n)
+                return
         if tc == 'list' and name == 'splice' and len(ts) == 4 and isinstance(ts[3], tuple) and ts[3][:2] == ('adv', 1) \
                 and len(ts[3]) > 2 and ts[3][2] == ts[2]:
             # splice(pos, l, first, std::next(first)): the one-node range [first, next(first)) is the single-node overload
